@@ -70,7 +70,7 @@ SumSeq(s) == IF s = <<>> THEN 0 ELSE Head(s) + SumSeq(Tail(s))
 Max(a, b) == IF a >= b THEN a ELSE b
 
 \* the chunk plan of the Jac transform is the one exported by JacChunks (C07)
-JC(mm, kk, rr) == INSTANCE JacChunks WITH MaxM <- 64, m <- mm, k <- kk, retainCaller <- rr,
+JC(mm, kk, rr) == INSTANCE JacChunks WITH MaxM <- 64, LargeM <- {}, m <- mm, k <- kk, retainCaller <- rr,
                      done <- {}, sweeps <- <<>>, assembled <- <<>>, status <- "running"
 ChunkPlan(m, k, r) == JC(m, k, r)!ImplPlan
 
